@@ -61,6 +61,26 @@ PROPS = {
         ],
         trusted=STD_TRUST,
     ),
+    "C05": dict(
+        units=["parse"],
+        level="proof",
+        min_obligations=15,
+        replay_family="c05",
+        explanation="The number scanner of parse/mod.rs (parse_num_literal, parse_long_integer, parse_num_tail, parse_decimal, parse_exponent, "
+                    "parse_radix_literal) is extracted from /repo and verified against a declarative grammar (sp_num_literal / sp_num_tail / sp_decimal / "
+                    "sp_exponent written from the C05 statement): digit runs of any length in radix 2/8/10/16, exact u64 value by induction over the digit "
+                    "loop (overflow! macro expanded, nonlinear lemma), sign application incl. the i64::MIN boundary and the float fall-back, fraction digits "
+                    "absorbed into the significand with the exponent decremented per digit, saturating exponent arithmetic, and the (significand, exponent) "
+                    "pair handed to f64_from_parts.",
+        assumptions=[
+            "f64_from_parts is floating-point arithmetic over a 309-entry table: assumed to be a pure function f64_parts_spec(pos, significand, exponent) "
+            "(correct rounding on the exact path and never-infinite are NOT decided here)",
+            "an over-long integer in radix r must equal radix_scale_spec(sig, r, k); for r = 10 this is f64_parts_spec (axiom)",
+            "`x as i64` out-of-range cast, `-(x as f64)`, i64::wrapping_neg, i32::saturating_add/sub: assumed std semantics",
+            "only the fast-float-parsing configuration of f64_from_parts is extracted",
+        ],
+        trusted=STD_TRUST,
+    ),
 }
 
 
